@@ -20,6 +20,7 @@ RULE = ("Trees rooted at a known element: rule-guided valid EML trees and fixtur
         "kept nodes registered; second prune returns []; strict leaves only valid non-root nodes.  Non-trivial: >= 2 "
         "offenders at different depths or an offender under an otherwise invalid parent; distinct (tree, mode) by hash.")
 RULE += ('  Call forms: prune on a parentless root, with the strict argument left out, on an inner node of a larger tree, on a copy of an inner node, on a removed child; roots that are themselves unknown elements.')
+RULE += ('  Planted offenders carry tail text half of the time (kept nodes, their content and tails included, must stay untouched).')
 ASSUMPTIONS = [
     "validate.node is the trusted single-node validator in strict mode (decided by C01-C04)",
     "the root is a known element (quantifier); order of the returned list is not constrained",
